@@ -774,7 +774,7 @@ class Funsor(object, metaclass=FunsorMeta):
             left, right = parse_ellipsis(other)
             missing = len(self.output.shape) - len(left) - len(right)
             assert missing >= 0
-            middle = [slice(None)] * missing
+            middle = (slice(None),) * missing
             other = tuple(left + middle + right)
 
         # Handle each slice separately.
